@@ -270,6 +270,11 @@ structure St where
   heldS : List (Nat × String) := []
   /-- republishing in-process callbacks (`srvsubrepub`): callback ↦ the topic it republishes to -/
   repub : List (Nat × Bytes) := []
+  /-- client identifiers whose only stored state is the empty state filed by a CleanSession=0 CONNECT
+  that could not be answered (`failfirst`): whether such a CONNECT counts as "an earlier
+  CleanSession=0 connection" is left open by the property, so the SessionPresent bit of the next
+  accepted CONNECT of that client is not compared in the specification stream (`CONNACK 1|0 0`) -/
+  tent : List Bytes := []
 
 def St.pendOf (st : St) (c : Nat) : Bytes := (st.pend.lookup c).getD []
 def St.setPend (st : St) (c : Nat) (bs : Bytes) : St :=
@@ -317,6 +322,22 @@ def emit (st : St) (own : Option Nat) (keepConnack : Bool) (mo : List Out) (so :
 the CONNACK is read (MQTT 3.1.1 §3.1.4 allows it): two events, one output line -/
 def splitSemi (ws : List String) : List String × List String :=
   (ws.takeWhile (· != ";"), (ws.dropWhile (· != ";")).drop 1)
+
+/-- the specification line of an accepted CONNECT of a client in `St.tent` leaves SessionPresent open -/
+def tentLine (st : St) (ev : Ev) (line : String) : String :=
+  match ev with
+  | .first c (.connect req) _ =>
+    if st.tent.contains req.clientId
+    then line.replace s!"c{c}[CONNACK 1 0" s!"c{c}[CONNACK 1|0 0"
+    else line
+  | _ => line
+
+/-- an accepted CONNECT establishes the client's state for good -/
+def tentAfter (st : St) (ev : Ev) : St :=
+  match ev with
+  | .first c (.connect req) _ =>
+    if st.m.alive c then { st with tent := st.tent.filter (· != req.clientId) } else st
+  | _ => st
 
 /-! ### byte-level events (`rawfirst`, `raw`): framing and decoding by `Model/Framing` + `Model/Codec` -/
 
@@ -471,6 +492,26 @@ def handle (st : St) (ws : List String) : St × String × String :=
     match c.toNat?, unhex hex, parseBool k with
     | some c, some bs, some k => handleRawFirst st c bs k
     | _, _, _ => (st, "bad-op", "bad-op")
+  | "failfirst" :: rest =>
+    -- a first packet on a connection the broker cannot write to (`handleConnection` with a failing
+    -- `writeMessage`): take-over as for any CONNECT, then `firstFail` on both sides
+    match parseEv ("first" :: rest) with
+    | some (.first c f a) =>
+      let r0 := Mqtt.Model.Broker.takeOver st.m f a
+      let r0 := if st.repub.isEmpty then r0 else closeM st.repub repubFuel r0.1 r0.2
+      let r1 := Mqtt.Model.Broker.firstFail r0.1 c f a
+      let s0 := Mqtt.Spec.Broker.takeOver st.s f a
+      let s0 := if st.repub.isEmpty || specUnspecified s0.2 then s0 else closeS st.repub repubFuel s0.1 s0.2
+      let s1 := Mqtt.Spec.Broker.firstFail s0.1 c f a
+      let tent := match f with
+        | .connect req =>
+          if !(Mqtt.Spec.Broker.refusals req a).isEmpty || req.clientId.isEmpty then st.tent
+          else if req.clean then st.tent.filter (· != req.clientId)
+          else if (s0.1.stored.lookup req.clientId).isNone then req.clientId :: st.tent
+          else st.tent
+        | _ => st.tent
+      emit { st with m := r1.1, s := s1.1, tent := tent } none false (r0.2 ++ r1.2) (s0.2 ++ s1.2)
+    | _ => (st, "bad-op", "bad-op")
   | "firstp" :: c :: rest =>
     let (a, b) := splitSemi rest
     match parseEv ("first" :: c :: a), parseEv ("pkt" :: c :: b) with
@@ -479,7 +520,8 @@ def handle (st : St) (ws : List String) : St × String × String :=
       let (m2, mo2) := stepM st.repub m1 e2
       let (s1, so1) := stepS st.repub st.s e1
       let (s2, so2) := stepS st.repub s1 e2
-      emit { st with m := m2, s := s2 } none false (mo1 ++ mo2) (so1 ++ so2)
+      let (st', ml, sl) := emit { st with m := m2, s := s2 } none false (mo1 ++ mo2) (so1 ++ so2)
+      (tentAfter { st' with m := m1 } e1 |> fun t => { t with m := m2 }, ml, tentLine st e1 sl)
     | _, _ => (st, "bad-op", "bad-op")
   | _ =>
     match parseEv ws with
@@ -496,6 +538,8 @@ def handle (st : St) (ws : List String) : St × String × String :=
       let st1 : St := { st with m := m, s := s }
       match ev with
       | .close c => emit (st1.setPend c []) (some c) false mo so
-      | _ => emit st1 none false mo so
+      | _ =>
+        let (st', ml, sl) := emit st1 none false mo so
+        (tentAfter st' ev, ml, tentLine st ev sl)
 
 end Mqtt.Driver.Broker
